@@ -97,7 +97,7 @@ fn dump<T: Serialize, R: Write>(
         let result = ser.serialize(&item).map_err(ExternalChunkError::from)?;
         let size = result.len() as u64;
         chunk_writer.write_u64::<byteorder::LittleEndian>(size)?;
-        chunk_writer.write(result.as_slice())?;
+        chunk_writer.write_all(result.as_slice())?;
     }
     return Ok(());
 }
